@@ -26,10 +26,15 @@ from harness.dfaops_common import (check_valid, lang_mismatch, parse_canon, py_c
                                    render_pair, renderer_atoms)
 
 LEVEL = "proof"
-RULE = ("cases = (operation, option combination, operand DFAs); seeded slice (quick) or all (thorough) ordered "
-        "pairs of DFAs with ≤2 states over {a,b} incl. partial ones, then shaped random operands (≤5 states, "
-        "adversarial name pools, partial×complete mixes), random expression trees of depth ≤3, alphabet "
-        "mismatches, to_partial/to_complete incl. custom trap names; non-trivial = every operand has ≥2 "
+RULE = ("cases = (operation, option combination, operand DFAs); quick: seeded random sample of the ordered pairs of "
+        "DFAs with ≤2 states over {a,b} incl. partial ones (one combination each, a few pairs with all 16); thorough: "
+        "the slice seed mod 8 of those pairs × all 4 operations × all 4 option combinations; then shaped random operands (≤5 states, "
+        "adversarial name pools, partial×complete mixes), random expression trees of depth ≤3 (recorded as data, every "
+        "node also compared with the model on the real intermediate operands), alphabet mismatches, "
+        "to_partial/to_complete incl. custom trap names (fresh, taken, equal to the key of a junk row), DFAs over the "
+        "empty alphabet, operators | & - ^ ~; sequences of 2–4 calls (to_partial, minify, complement, ~, "
+        "to_complete, | & - ^, isempty, isfinite, maximum_word_length, ==, <=) on ONE object kept alive, every result "
+        "evaluated; non-trivial = every operand has ≥2 "
         "reachable states and the result language is neither empty nor universal; distinct = distinct "
         "(operation, options, encoded operands)")
 ASSUMPTIONS = [
@@ -39,6 +44,8 @@ ASSUMPTIONS = [
 EXPLANATION = ("Theorems C04_* (Props/C04.lean) prove for the model that every Boolean operation returns a valid DFA "
                "with exactly the set-operation language for all operands and options; this run ties the model to "
                "the code and evaluates the property on the real results with an independent complete product search.")
+
+SMALL_PAIR_SLICES = 8
 
 OPS = {
     "union": (lambda a, b, **k: a.union(b, **k), lambda x, y: x or y, lambda a, b: a | b),
@@ -227,7 +234,8 @@ def do_to_partial(ctx: Ctx, A: DFA, retain: bool, minify: bool, origin: str):
 
 @guarded
 def do_to_complete(ctx: Ctx, A: DFA, mode: str, origin: str):
-    """mode: default | custom_fresh | custom_taken"""
+    """mode: default | custom_fresh | custom_taken | custom_junk (a key of a transition row that is not a state:
+    allowed as a trap name — the check is `trap_state in self.states` — and the trap row then REPLACES that row)"""
     drv = ctx.driver("drv_dfa_ops")
     encA, stA, sy = enc_dfa(A)
     from harness.common import dfa_plain
@@ -238,6 +246,12 @@ def do_to_complete(ctx: Ctx, A: DFA, mode: str, origin: str):
         trap_name, custom = _added_state(A, res[1] if res[0] == "ok" else None), False
     elif mode == "custom_fresh":
         trap_name, custom = ("trap", len(A.states)), True
+        res = call(lambda: A.to_complete(trap_name))
+    elif mode == "custom_junk":
+        junk = [k for k in A.transitions if k not in A.states]
+        if not junk:
+            return
+        trap_name, custom = ctx.rng.choice(junk), True
         res = call(lambda: A.to_complete(trap_name))
     else:
         trap_name, custom = ctx.rng.choice(sorted(A.states, key=repr)), True
@@ -262,39 +276,69 @@ def do_to_complete(ctx: Ctx, A: DFA, mode: str, origin: str):
         ctx.corr_diff("DFA_TO_COMPLETE", replay, imp, mod)
 
 
-def expr_tree(ctx: Ctx, leaves, depth: int):
-    """Random expression tree over the operations; returns (real DFA, python predicate over leaf verdicts, text)."""
-    rng = ctx.rng
+def gen_tree(rng, n_leaves: int, depth: int):
+    """Random expression tree as plain data (JSON-able, recorded in replays):
+    ["leaf", i] | [binop, left, right, retain, minify, use_operator] | ["compl", sub, retain, minify, use_operator]
+    | ["to_partial", sub, retain, minify] | ["to_complete", sub]"""
     if depth == 0 or rng.random() < 0.25:
-        i = rng.randrange(len(leaves))
-        return leaves[i], (lambda v, i=i: v[i]), f"L{i}"
+        return ["leaf", rng.randrange(n_leaves)]
     kind = rng.choice(["union", "inter", "diff", "symm", "compl", "to_partial", "to_complete"])
     if kind in OPS:
-        l, fl, tl = expr_tree(ctx, leaves, depth - 1)
-        r, fr, tr = expr_tree(ctx, leaves, depth - 1)
-        opts = dict(retain_names=rng.random() < 0.5, minify=rng.random() < 0.5)
-        impl_f, spec, oper = OPS[kind]
-        if rng.random() < 0.3:
-            res = oper(l, r)
-        else:
-            res = impl_f(l, r, **opts)
-        return res, (lambda v: spec(fl(v), fr(v))), f"{kind}({tl},{tr})"
-    l, fl, tl = expr_tree(ctx, leaves, depth - 1)
+        return [kind, gen_tree(rng, n_leaves, depth - 1), gen_tree(rng, n_leaves, depth - 1),
+                rng.random() < 0.5, rng.random() < 0.5, rng.random() < 0.3]
+    sub = gen_tree(rng, n_leaves, depth - 1)
     if kind == "compl":
-        res = l.complement(retain_names=rng.random() < 0.5, minify=rng.random() < 0.5) if rng.random() < 0.7 else ~l
+        return ["compl", sub, rng.random() < 0.5, rng.random() < 0.5, rng.random() >= 0.7]
+    if kind == "to_partial":
+        return ["to_partial", sub, rng.random() < 0.5, rng.random() < 0.5]
+    return ["to_complete", sub]
+
+
+def eval_tree(ctx: Ctx, leaves, tree, correspond: bool):
+    """→ (real DFA, predicate over leaf verdicts, text).  With `correspond`, every operation node is also
+    sent through the model correspondence (and the per-node oracle) of that operation with the REAL
+    intermediate operands — the tree correspondence, node by node."""
+    kind = tree[0]
+    if kind == "leaf":
+        i = tree[1]
+        return leaves[i], (lambda v, i=i: v[i]), f"L{i}"
+    if kind in OPS:
+        _, lt, rt, retain, minify, use_op = tree
+        l, fl, tl = eval_tree(ctx, leaves, lt, correspond)
+        r, fr, tr = eval_tree(ctx, leaves, rt, correspond)
+        impl_f, spec, oper = OPS[kind]
+        res = oper(l, r) if use_op else impl_f(l, r, retain_names=retain, minify=minify)
+        if correspond:
+            do_binop(ctx, kind, l, r, retain, minify, "expression_node", use_operator=use_op)
+        return res, (lambda v: spec(fl(v), fr(v))), (f"({tl} {kind}* {tr})" if use_op else f"{kind}[r{int(retain)}m{int(minify)}]({tl},{tr})")
+    if kind == "compl":
+        _, st, retain, minify, use_op = tree
+        l, fl, tl = eval_tree(ctx, leaves, st, correspond)
+        res = ~l if use_op else l.complement(retain_names=retain, minify=minify)
+        if correspond:
+            do_complement(ctx, l, retain, minify, "expression_node", use_operator=use_op)
         return res, (lambda v: not fl(v)), f"~{tl}"
     if kind == "to_partial":
-        return l.to_partial(retain_names=rng.random() < 0.5, minify=rng.random() < 0.5), fl, f"partial({tl})"
+        _, st, retain, minify = tree
+        l, fl, tl = eval_tree(ctx, leaves, st, correspond)
+        if correspond:
+            do_to_partial(ctx, l, retain, minify, "expression_node")
+        return l.to_partial(retain_names=retain, minify=minify), fl, f"partial({tl})"
+    _, st = tree
+    l, fl, tl = eval_tree(ctx, leaves, st, correspond)
+    if correspond:
+        do_to_complete(ctx, l, "default", "expression_node")
     return l.to_complete(), fl, f"complete({tl})"
 
 
 @guarded
-def do_expr(ctx: Ctx, leaves, depth: int):
+def do_expr(ctx: Ctx, leaves, depth: int, tree=None):
     ctx.stat("expression_tree")
-    replay = dict(op="expression", leaves=[repr(x) for x in leaves])
-    state = ctx.rng.getstate()
+    if tree is None:
+        tree = gen_tree(ctx.rng, len(leaves), depth)
+    replay = dict(op="expression", leaves=[repr(x) for x in leaves], tree=tree)
     try:
-        R, pred, text = expr_tree(ctx, leaves, depth)
+        R, pred, text = eval_tree(ctx, leaves, tree, correspond=True)
     except Exception as e:  # noqa: BLE001
         ctx.case(None)
         ctx.prop_fail(f"expression tree raised {type(e).__name__}: {e}", replay)
@@ -302,6 +346,74 @@ def do_expr(ctx: Ctx, leaves, depth: int):
     replay["expr"] = text
     ok = check_result_props(ctx, f"expression {text}", leaves, R, lambda *v: pred(v), replay)
     ctx.case(("expr", text, tuple(repr(x) for x in leaves)) if ok and nontrivial(leaves, R) else None)
+
+
+def seq_on_dfa(ctx):
+    def on_dfa(what, srcs, spec, R, replay, minified):
+        return check_result_props(ctx, what, srcs, R, spec, replay)
+    return on_dfa
+
+
+@guarded
+def do_sequence(ctx: Ctx, d: DFA, b: DFA, steps, origin: str):
+    from harness import dfa_sequences
+    dfa_sequences.run_sequence(ctx, d, b, steps, origin, seq_on_dfa(ctx))
+
+
+def run_sequences(ctx: Ctx, n: int):
+    """2–4 calls on ONE object in random order, every result evaluated (see harness/dfa_sequences.py)."""
+    from harness import dfa_sequences
+    rng = ctx.rng
+    for _ in range(n):
+        al = rng.choice(gen.ALPHABETS)
+        # complete DFAs with sinks (reachable dead states) are the interesting operands: half of the draws
+        d = gen.rand_dfa(rng, 5, al, partial=False if rng.random() < 0.5 else None)
+        b = gen.rand_dfa(rng, 4, al)
+        do_sequence(ctx, d, b, dfa_sequences.draw_steps(rng), "sequence_on_one_object")
+
+
+def run_junk_trap(ctx: Ctx, n: int):
+    """to_complete(trap_state=<key of a junk row>) and the other operations on DFAs with junk rows."""
+    rng = ctx.rng
+    for _ in range(n):
+        al = rng.choice(gen.ALPHABETS)
+        a = gen.rand_dfa(rng, 4, al, partial=True if rng.random() < 0.8 else None, junk_rows=True)
+        do_to_complete(ctx, a, "custom_junk", "junk_key_trap")
+        if rng.random() < 0.3:
+            b = gen.rand_dfa(rng, 3, al, junk_rows=rng.random() < 0.5)
+            do_binop(ctx, rng.choice(list(OPS)), a, b, rng.random() < 0.5, rng.random() < 0.5, "junk_rows")
+            do_complement(ctx, a, rng.random() < 0.5, rng.random() < 0.5, "junk_rows")
+
+
+def empty_alphabet_dfas():
+    out = []
+    for fin in (set(), {0}):
+        for partial in (False, True):
+            out.append(DFA(states={0}, input_symbols=set(), transitions={0: {}}, initial_state=0,
+                           final_states=fin, allow_partial=partial))
+    out.append(DFA(states={0, 1}, input_symbols=set(), transitions={0: {}, 1: {}}, initial_state=1,
+                   final_states={0}, allow_partial=True))
+    out.append(DFA(states={0, 1}, input_symbols=set(), transitions={0: {}, 1: {}, "junk": {}}, initial_state=1,
+                   final_states={0, 1}, allow_partial=False))
+    return out
+
+
+def run_empty_alphabet(ctx: Ctx):
+    """Every operation × every option combination on every DFA over the empty alphabet in the corpus."""
+    ea = empty_alphabet_dfas()
+    opts = [(r, m) for r in (False, True) for m in (False, True)]
+    for a in ea:
+        for r, m in opts:
+            do_complement(ctx, a, r, m, "empty_alphabet")
+            do_to_partial(ctx, a, r, m, "empty_alphabet")
+            for b in ea:
+                for opname in OPS:
+                    do_binop(ctx, opname, a, b, r, m, "empty_alphabet")
+        do_complement(ctx, a, False, True, "empty_alphabet", use_operator=True)
+        for mode in ("default", "custom_fresh", "custom_taken", "custom_junk"):
+            do_to_complete(ctx, a, mode, "empty_alphabet")
+    ctx.exhaustive(f"{len(ea)} DFAs over the empty alphabet: all 4 operations × 4 option combinations on all ordered pairs, "
+                   "complement / to_partial × 4 option combinations, ~, to_complete (4 trap modes)")
 
 
 def small_dfas():
@@ -353,7 +465,9 @@ def search(ctx: Ctx):
         b = gen.rand_dfa(rng, 4, al)
         r, m = opts[rng.randrange(4)]
         k = rng.random()
-        if k < 0.4:
+        if k < 0.1:
+            run_sequences(ctx, 1)
+        elif k < 0.4:
             do_binop(ctx, rng.choice(list(OPS)), a, b, r, True, "search")
         elif k < 0.6:
             do_complement(ctx, a, r, True, "search")
@@ -368,23 +482,40 @@ def run(ctx: Ctx):
     pool = small_dfas()
     opts = [(r, m) for r in (False, True) for m in (False, True)]
     run_corpus(ctx)
-    # 1. pairs of small DFAs: all of them (thorough) or a seeded slice (quick)
+    run_empty_alphabet(ctx)
+    run_junk_trap(ctx, ctx.budget(150, 3000))
+    # 1. pairs of small DFAs.  thorough: the pairs with index ≡ seed (mod SLICES) get ALL 4 operations × ALL 4
+    #    option combinations (the seeds 0..SLICES-1 together cover every pair completely); every other pair gets
+    #    one random combination.  quick: a seeded random sample (nothing exhaustive is claimed).
     if ctx.thorough():
-        pairs = ((a, b) for a in pool for b in pool)
         n_pairs = len(pool) ** 2
-        every = max(1, n_pairs // ctx.budget(1, 120000))
-        for i, (a, b) in enumerate(pairs):
-            if i % every:
-                continue
-            r, m = opts[rng.randrange(4)]
-            do_binop(ctx, rng.choice(list(OPS)), a, b, r, m, "small_pairs")
-        if every == 1:
-            ctx.exhaustive(f"all {n_pairs} ordered pairs of DFAs with ≤2 states over {{a,b}} (one random operation/option combination each)")
+        scale = ctx.budget(1, 1000) / 1000.0  # VERIF_BUDGET_SCALE / changed-function scaling
+        slices = max(1, int(round(SMALL_PAIR_SLICES / max(scale, 1e-9)))) if scale < 1 else SMALL_PAIR_SLICES
+        mine = ctx.seed % slices
+        full = 0
+        for i, (a, b) in enumerate((a, b) for a in pool for b in pool):
+            if i % slices == mine:
+                full += 1
+                for opname in OPS:
+                    for r, m in opts:
+                        do_binop(ctx, opname, a, b, r, m, "small_pairs_all16")
+            elif i % 4 == (mine + 1) % 4:
+                r, m = opts[rng.randrange(4)]
+                do_binop(ctx, rng.choice(list(OPS)), a, b, r, m, "small_pairs")
+        ctx.exhaustive(f"slice {mine} of {slices} of the {n_pairs} ordered pairs of DFAs with ≤2 states over {{a,b}} "
+                       f"(pairs with index ≡ {mine} mod {slices}: {full} pairs) × all 4 operations × all 4 "
+                       f"(retain_names, minify) combinations; VERIF_SEED = 0..{slices - 1} together cover every pair")
     else:
         for _ in range(ctx.budget(6000, 0)):
             a, b = rng.choice(pool), rng.choice(pool)
             r, m = opts[rng.randrange(4)]
             do_binop(ctx, rng.choice(list(OPS)), a, b, r, m, "small_pairs")
+        # a few pairs completely
+        for _ in range(ctx.budget(60, 0)):
+            a, b = rng.choice(pool), rng.choice(pool)
+            for opname in OPS:
+                for r, m in opts:
+                    do_binop(ctx, opname, a, b, r, m, "small_pairs_all16")
     # every small DFA: complement / to_partial / to_complete in all option combinations
     step = 1 if ctx.thorough() else 4
     for i, a in enumerate(pool):
@@ -395,8 +526,11 @@ def run(ctx: Ctx):
             do_to_partial(ctx, a, r, m, "small_unary")
         for mode in ("default", "custom_fresh", "custom_taken"):
             do_to_complete(ctx, a, mode, "small_unary")
+        do_complement(ctx, a, False, True, "small_unary", use_operator=True)
     if step == 1:
         ctx.exhaustive("all DFAs with ≤2 states over {a,b}: complement / to_partial (4 option combinations), to_complete (3 trap modes)")
+    # sequences of calls on one object
+    run_sequences(ctx, ctx.budget(700, 12000))
     # 2. shaped random
     for _ in range(ctx.budget(4000, 60000)):
         al = rng.choice(gen.ALPHABETS)
@@ -413,7 +547,7 @@ def run(ctx: Ctx):
         elif k < 0.80:
             do_to_partial(ctx, a, r, m, "random")
         elif k < 0.88:
-            do_to_complete(ctx, a, rng.choice(["default", "custom_fresh", "custom_taken"]), "random")
+            do_to_complete(ctx, a, rng.choice(["default", "custom_fresh", "custom_taken", "custom_junk"]), "random")
         elif k < 0.93:
             other = gen.rand_dfa(rng, 3, rng.choice([x for x in gen.ALPHABETS if set(x) != set(al)]))
             do_binop(ctx, rng.choice(list(OPS)), a, other, r, m, "random_mismatch")
@@ -436,8 +570,12 @@ def replay(ctx: Ctx, path: str) -> int:
         do_to_partial(ctx, eval(rp["A"], env), rp["retain_names"], rp["minify"], "replay")
     elif op == "to_complete":
         do_to_complete(ctx, eval(rp["A"], env), rp["mode"], "replay")
+    elif op == "sequence":
+        do_sequence(ctx, eval(rp["A"], env), eval(rp["B"], env), rp["steps"], "replay")
+    elif op == "expression" and "tree" in rp:
+        do_expr(ctx, [eval(x, env) for x in rp["leaves"]], 0, tree=rp["tree"])
     else:
-        print("replay: expression-tree replays are re-run by seed (VERIF_SEED) only")
+        print("replay: expression-tree replays recorded before the tree was stored are re-run by seed only")
         return 0
     if ctx.prop_fails:
         print(f"VIOLATION property=C04 replay={path}")
